@@ -831,6 +831,26 @@ func (ck *Check) decoderAndKeys(rule string) {
 	for _, ci := range callsIn(fn, nil) {
 		if f := ci.Common().StaticCallee(); f != nil && f.Name() == "NewYAMLOrJSONDecoder" && strings.HasSuffix(pkgPathOfFn(f), "apimachinery/pkg/util/yaml") {
 			dec = true
+			// what is decoded is what the caller handed in — the whole of it: the decoder reads the
+			// function's own reader parameter (a limiting, skipping or teeing wrapper in between makes
+			// the accepted configuration something other than the file)
+			var src ssa.Value
+			if len(ci.Common().Args) > 0 {
+				src = ci.Common().Args[0]
+				for {
+					if mi, ok := src.(*ssa.ChangeInterface); ok {
+						src = mi.X
+						continue
+					}
+					break
+				}
+			}
+			_, isParam := src.(*ssa.Parameter)
+			found := "?"
+			if src != nil {
+				found = src.String()
+			}
+			ck.cond(isParam, rule, "decoder/input", ck.P.instrPos(ci), funcID(fn), "the decoder reads the reader the function was given, as it is", found, "a wrapped reader (io.LimitReader, …) truncates or alters the configuration without an error: groups are dropped or values shortened, and what is left passes validation")
 		}
 	}
 	ck.cond(dec, rule, "decoder", ck.P.position(fn.Pos()), funcID(fn), "the decoder is k8s.io/apimachinery/pkg/util/yaml.NewYAMLOrJSONDecoder (YAML is converted to JSON; one json-tag table for both)", "", "YAML and JSON may be decoded through different tag tables")
